@@ -285,8 +285,8 @@ var writeSets = map[string]map[string]string{
 	"base.RemoveAllowedBridgeChain": {"AllowedBridgeChain": "*"},
 	"base.BurnRegen":                {},
 	"basket.Create":                 {"Basket": "*", "BasketClass": "*"},
-	"basket.Put":                    {"BatchBalance": "TradableAmount", "BasketBalance": "*"},
-	"basket.Take":                   {"BasketBalance": "*", "BatchBalance": "TradableAmount,RetiredAmount", "BatchSupply": "TradableAmount,RetiredAmount"},
+	"basket.Put":                    {"BatchBalance": "TradableAmount", "BasketBalance": "Balance"},
+	"basket.Take":                   {"BasketBalance": "Balance", "BatchBalance": "TradableAmount,RetiredAmount", "BatchSupply": "TradableAmount,RetiredAmount"},
 	"basket.UpdateBasketFee":        {"BasketFee": "*"},
 	"basket.UpdateCurator":          {"Basket": "Curator"},
 	"basket.UpdateDateCriteria":     {"Basket": "DateCriteria"},
@@ -436,7 +436,7 @@ func ruleWriteSet(c *Ctx, p *Program, h *HandlerResult, rule string) {
 				continue
 			}
 			if ev.OpKind == "delete" || ev.OpKind == "deleterange" {
-				if t != "SellOrder" {
+				if t != "SellOrder" && t != "BasketBalance" {
 					bad = append(bad, "deletes from "+t)
 				}
 				continue
@@ -671,7 +671,11 @@ func checkC03(c *Ctx, e *Env) {
 
 func coinsString(h *HandlerResult, st *State, v Val) string {
 	if cs := h.X.coinsOf(st, v); cs != nil {
-		return cs.vs()
+		var items []string
+		for _, it := range cs.Items {
+			items = append(items, "coin("+st.canon(it.Denom)+","+vstr(it.Amt)+")")
+		}
+		return "coins[" + strings.Join(items, ";") + "]"
 	}
 	return st.canon(v)
 }
